@@ -212,10 +212,18 @@ func verifHarness_C15_control_send() {
 	typ := []MessageType{PingMessage, PongMessage, CloseMessage}[verifChoose("type", 3)]
 	n := []int{0, 1, 124, 125, 126, 127, 200}[verifChoose("len", 7)]
 	data := verifBytes("data", n)
-	err := ep.c.WriteMessage(typ, data)
+	// both public ways of sending a frame
+	var err error
+	entry := "WriteMessage"
+	if verifChoose("entry_point", 2) == 1 {
+		entry = "WriteFrame"
+		err = ep.c.WriteFrame(typ, true, true, data)
+	} else {
+		err = ep.c.WriteMessage(typ, data)
+	}
 	if n > 125 {
 		verifReach("refused")
-		verifAssertD(errors.Is(err, ErrControlMessageTooBig) && len(ep.fake.writes) == 0, "oversized-control-frame-refused-on-send", "")
+		verifAssertD(errors.Is(err, ErrControlMessageTooBig) && len(ep.fake.writes) == 0, "oversized-control-frame-refused-on-send", entry)
 	} else {
 		verifAssertD(err == nil && len(ep.fake.writes) == 1, "fitting-control-frame-sent", "")
 	}
